@@ -9,8 +9,9 @@ class Reader:
     escaped: int    # Line index of the last line whose escaping backslash was dropped.
     expansions: List[int]   # End line indexes of the nested line macro expansions enclosing the current line.
     depth: int  # Number of line macro expansions enclosing this reader (the content of a container block has its own reader).
+    level: int  # Number of container blocks enclosing this reader.
 
-    def __init__(self, text: str, depth: int = 0):
+    def __init__(self, text: str, depth: int = 0, level: int = 0):
         # Used internally by spans package.
         text = text.replace('\u0000', ' ')
         # Used internally by spans package.
@@ -25,6 +26,7 @@ class Reader:
         self.escaped = -1
         self.expansions = []
         self.depth = depth
+        self.level = level
 
     @property
     def cursor(self) -> str:
